@@ -93,9 +93,9 @@ class Ptr:
 
 class State:
     def __init__(s):
-        s.mem = {}; s.pc = []; s.env = {}; s.exc = None; s.trig = []
+        s.mem = {}; s.pc = []; s.env = {}; s.exc = None; s.trig = []; s.wit = []   # wit: (radicand, y) sqrt witnesses defined on THIS path
     def clone(s):
-        t = State(); t.mem = dict(s.mem); t.pc = list(s.pc); t.env = dict(s.env); t.exc = s.exc; t.trig = list(s.trig); return t
+        t = State(); t.mem = dict(s.mem); t.pc = list(s.pc); t.env = dict(s.env); t.exc = s.exc; t.trig = list(s.trig); t.wit = list(s.wit); return t
 
 
 class PathLimit(Exception): pass
@@ -106,7 +106,7 @@ class Sym:
         s.m = module; s.L = Layout(module); s.fresh = 0; s.npaths = 0; s.timeout = timeout_ms; s.max_paths = max_paths
         s.uf = {}; s.axioms = []; s.queries = 0; s.calls = {}; s.deadline = None
         s.conc_trig = {}     # concrete mode: pinned values
-        s.funcs_run = set(); s.check_divzero = True; s.divzero_paths = 0
+        s.funcs_run = set(); s.check_divzero = True; s.divzero_paths = 0; s.div_as_var = False
         s.contracts = {}    # mangled name -> callable(sym, st, args) -> return value: callee replaced by its (separately proved) contract
         s.contracts_used = set()
         s._bcache = {}; s._trig_done = set(); s.trig_instances = []
@@ -274,6 +274,14 @@ class Sym:
         sv, cv, _ = s.uf[key]
         return Rat(sv), Rat(cv)
 
+    def quotient(s, st, a, b):
+        """a / b.  With div_as_var the quotient of symbolic operands is a fresh real q constrained by q*b == a, which keeps
+        later comparisons and sign reasoning linear in q instead of cross-multiplying ever larger polynomials"""
+        if not s.div_as_var or (a.conc() and b.conc()) or isconst(b.n) and isconst(b.d): return rdiv(a, b)
+        q = s.newreal('quo')
+        st.pc.append(q * b.n * a.d == a.n * b.d)
+        return Rat(q)
+
     def instantiate_trig_axioms(s):
         """parity and double-angle instances for every pair of registered sin/cos arguments whose ratio is -1, 2 or -2
         (decided by a premise-free identity check); each instance is recorded in s.axioms / s.trig_instances"""
@@ -349,9 +357,9 @@ class Sym:
                     if not s.feasible(st, nz): return out      # only division by zero possible here
                     st.pc.append(nz)
                     if out:
-                        st.env[ins.res] = rdiv(a, b)
+                        st.env[ins.res] = s.quotient(st, a, b)
                         return out + [('resume', st, idx + 1)]
-                r = rdiv(a, b)
+                r = s.quotient(st, a, b)
             env[ins.res] = r
         elif op == 'fneg':
             ty = p.type(); env[ins.res] = rneg(s.val(p, ty, st))
@@ -583,7 +591,7 @@ class Sym:
             nn = (x.n * x.d >= 0)
             if not s.feasible(st, nn): return []
             st.pc += [nn, y >= 0, y * y * x.d == x.n]
-            s.witnesses.append((x, y))
+            st.wit.append((x, y))
             setr(Rat(y)); return None
         if base in ('sin', 'cos'):
             sv, cv = s.sincos(st, args[0]); setr(sv if base == 'sin' else cv); return None
